@@ -1,0 +1,47 @@
+//go:build verif
+
+// Contracts for gzv (contract-based deductive verification, /verif). Comment-only file.
+package kube
+
+// ---------------------------------------------------------------------------------------------
+// C13 Kubernetes endpoints handler: when is a new address set "different" (and therefore published), and what is published.
+// ---------------------------------------------------------------------------------------------
+
+// diff: "no difference" is only ever answered for two sets of the same size of which the first is included in the second
+// (for finite sets: equal sets); a difference is only answered when the sizes differ or an old address is missing.
+//@ func diff
+//@   property C13
+//@   requires o != nil && n != nil
+//@   ensures implies(!result, len(o) == len(n) && forall(k.(string), implies(inDom(o, k), inDom(n, k))))
+//@   ensures implies(result, len(o) != len(n) || exists(k.(string), inDom(o, k) && !inDom(n, k)))
+//@   modifies nothing
+//@   loop 0: modifies nothing
+//@   loop 0: invariant forall(k.(string), implies(seen[k], inDom(n, k)))
+
+// notify publishes exactly the current address set (as a set)
+//@ func (h *EventHandler) notify
+//@   property C13
+//@   flag callbacks_noheap
+//@   requires h.endpoints != nil && h.update != nil
+//@   call update#0: assert forall(x.(string), has(arg0, x) == inDom(h.endpoints, x))
+//@   ensures calls(h.update) == old(calls(h.update)) + 1
+//@   modifies calls(h.update)
+//@   allocates
+//@   loop 0: modifies nothing
+//@   loop 0: invariant forall(x.(string), has(targets, x) == seen[x])
+
+// Update: the new address set is built in a fresh map and published iff diff says it differs from the previous one
+// (that the fresh map holds exactly the addresses of the endpoints object is not proved: nested range over k8s structs)
+//@ func (h *EventHandler) Update
+//@   property C13
+//@   flag callbacks_noheap
+//@   requires h != nil && endpoints != nil && h.endpoints != nil && h.update != nil
+//@   ghost at after diff#0: df = ret
+//@   call diff#0: assert arg_o == old(h.endpoints) && arg_n == h.endpoints && arg_n != arg_o
+//@   call notify#0: assert df
+//@   ensures calls(h.update) == old(calls(h.update)) + ite(df, 1, 0)
+//@   allocates
+//@   loop 0: modifies mapof(h.endpoints)
+//@   loop 0: invariant h.endpoints != nil && h.endpoints != old(h.endpoints)
+//@   loop 1: modifies mapof(h.endpoints)
+//@   loop 1: invariant h.endpoints != nil && h.endpoints != old(h.endpoints)
